@@ -19,6 +19,7 @@ type Config struct {
 	Entry  string // "" (default per op), "func", "method"
 	Name   string // configuration label (build tags etc.)
 	Calc   bool   // also ask the shape-only calculators and compare them with the operations (C13)
+	Sub    string // the concrete operator substituted for the placeholder "OP"
 }
 
 type World struct {
@@ -64,6 +65,8 @@ type execResult struct {
 	div      *Divergence // a divergence detected inside a compound op
 	altShape bool        // the result has a shape other than the model's, but one the statement allows
 	altElems []interface{}
+	mayRefuse bool // an error is an accepted refusal (element type outside the operation's domain)
+	openEnd   bool // the inputs are left open by the statement: nothing is executed or compared
 }
 
 type opFunc func(w *World, st *Step) execResult
@@ -76,6 +79,9 @@ func (w *World) div(step int, kind, detail string) *Divergence {
 	op := ""
 	if step >= 0 && step < len(w.c.Steps) {
 		op = w.c.Steps[step].Op.K
+	}
+	if w.Cfg.Sub != "" {
+		op += ":" + w.Cfg.Sub
 	}
 	return &Divergence{Case: w.c.ID, Fam: w.c.Fam, DT: w.Cfg.D.Name, Pal: w.Cfg.Pal.Name, Cfg: w.Cfg.Name,
 		Step: step, Op: op, Kind: kind, Detail: detail, Path: w.c.PathString(), Tags: append([]string{}, w.tags...)}
@@ -102,8 +108,9 @@ const (
 
 // Run replays the case; returns the first divergence (nil if none).
 func Run(c *Case, cfg Config, stats *Stats) (*Divergence, Outcome) {
-	w := &World{Cfg: cfg, Ev: &vals.Evaluator{D: cfg.D, Pal: cfg.Pal}, c: c, Stats: stats,
+	w := &World{Cfg: cfg, Ev: &vals.Evaluator{D: cfg.D, Pal: cfg.Pal, Sub: cfg.Sub}, c: c, Stats: stats,
 		altFull: map[int][]int{}, altDrop: map[int][]int{}}
+	w.Ev.CellDT = w.cellDT
 	stats.Execs++
 	for i := range c.Steps {
 		st := &c.Steps[i]
@@ -116,6 +123,10 @@ func Run(c *Case, cfg Config, stats *Stats) (*Divergence, Outcome) {
 		r := safeCall(func() execResult { return f(w, st) })
 		stats.Calls++
 		stats.ByOp[st.Op.K]++
+		if r.openEnd {
+			stats.Open++
+			return nil, OpenEnd
+		}
 		if r.div != nil {
 			r.div.Step = i
 			r.div.Op = st.Op.K
@@ -160,7 +171,7 @@ func Run(c *Case, cfg Config, stats *Stats) (*Divergence, Outcome) {
 			// state must be unchanged: checked below against the post state (identical to the pre state)
 		case "ok":
 			if r.err != nil {
-				if st.Res.Ref {
+				if st.Res.Ref || r.mayRefuse {
 					stats.Refused++
 					stats.RefusedOps[st.Op.K]++
 					return nil, Refused
@@ -433,6 +444,23 @@ func (w *World) compareAlt(i int, st *Step, r execResult) *Divergence {
 		}
 	}
 	return nil
+}
+
+// cellDT: the element type of the allocation a cell belongs to ("" = the element type of the run)
+func (w *World) cellDT(id int) *vals.DT {
+	p := w.finalPost()
+	for _, a := range p.Allocs {
+		if id >= a.Start && id < a.Start+a.Len {
+			switch a.Et {
+			case "bool":
+				return vals.ByName("bool")
+			case "int":
+				return vals.ByName("int")
+			}
+			return w.Cfg.D
+		}
+	}
+	return w.Cfg.D
 }
 
 func (w *World) noteTags(st *Step) {
